@@ -66,6 +66,22 @@ def loc_outcome(fn):
     return outcome(fn, lambda r: (loc(r), pid(r)))
 
 
+_COMP = {"A": "T", "C": "G", "G": "C", "T": "A", "a": "t", "c": "g", "g": "c", "t": "a", "N": "N", "n": "n"}
+
+
+def chunk_parent(root, ws, we, minus=False, **kw):
+    """seq_chunk_to_parent for the window [ws, we) of `root`; minus=True: the chunk sits on the MINUS strand of the
+    chromosome (its sequence is the reverse complement of the window) -- every chromosome-level answer of an object built
+    on it is the same as on a plus-strand chunk"""
+    from inscripta.biocantor.io.parser import seq_chunk_to_parent
+    from inscripta.biocantor.location.strand import Strand
+
+    if minus:
+        return seq_chunk_to_parent("".join(_COMP.get(c, c) for c in reversed(root[ws:we])), "chr", ws, we,
+                                   strand=Strand.MINUS, **kw)
+    return seq_chunk_to_parent(root[ws:we], "chr", ws, we, **kw)
+
+
 def make_loc(blocks, strand, parent=None, force_compound=False):
     from inscripta.biocantor.location.location_impl import CompoundInterval, SingleInterval
     from inscripta.biocantor.location.strand import Strand
